@@ -45,6 +45,9 @@ NAMES = {
     "mathfunc": {"S1": "S1", "S2": "S2", "k1": "exp", "k2": "math", "d": "log", "f": "fd", "C": "comp"},
     "timelike": {"S1": "t", "S2": "time_", "k1": "T", "k2": "dt", "d": "d1", "f": "fd", "C": "comp"},
     "modules": {"S1": "math", "S2": "S2", "k1": "scipy", "k2": "k2", "d": "numpy", "f": "fd", "C": "comp"},
+    # legal ids that coincide with names the importer's code generator makes up (init_<id> for initial assignments)
+    "internal-S1": {"S1": "S1", "S2": "S2", "k1": "k1", "k2": "k2", "d": "init_S1", "f": "fd", "C": "comp"},
+    "internal-k2": {"S1": "S1", "S2": "S2", "k1": "k1", "k2": "k2", "d": "init_k2", "f": "init_kq1", "C": "comp"},
 }
 LAWS = ["ma", "ma-comp", "piecewise", "power", "exp", "ln", "fcall", "sqrt", "piconst", "rootsq", "abs", "minmax", "fracpow"]
 STOICH = ["one", "two", "half", "rule"]
@@ -258,6 +261,8 @@ def generate(tier):
             add(hosu=hosu, init=init, k2=k2, sia=sia, ruled=ruled, law=law, fdef=int(law == "fcall"))
         for names, hosu, k2, law in it.product(names_all[1:], (0, 1), K2, ("ma", "exp", "piecewise", "fcall")):
             add(names=names, hosu=hosu, k2=k2, law=law, fdef=int(law == "fcall"))
+    for names, hosu, k2, sia, law, chain in it.product(("internal-S1", "internal-k2"), (0, 1), K2, (0, 1), ("ma", "piecewise", "fcall"), (None, "fwd")):
+        add(names=names, hosu=hosu, k2=k2, sia=sia, ruled=1, law=law, fdef=1, **({"iachain": chain} if chain else {}))
     # chains of initial assignments, listed in and against dependency order
     for chain, hosu, k2, sia, law, names in it.product(("fwd", "rev"), (0, 1), K2, (0, 1), ("ma", "piecewise", "fcall"), ("plain", "keyword", "timelike")):
         add(iachain=chain, hosu=hosu, k2=k2, sia=sia, law=law, names=names, fdef=int(law == "fcall"))
